@@ -942,6 +942,11 @@ func (rn *runner) replay(v, c *tmconsensus.VersionedRoundView) {
 	if !haveNext {
 		next = w.randValset()
 	}
+	if variant == 15 {
+		// the header leaves the validator set UNCHANGED (next set = current set, equal hashes) ...
+		next = cur
+		next.ok = true
+	}
 	saved, had := rn.valsAt[h]
 	rn.valsAt[h] = cur
 	hd := rn.mkHeader(h, v, c, v.PrevCommitProof.Clone(), next)
@@ -974,6 +979,11 @@ func (rn *runner) replay(v, c *tmconsensus.VersionedRoundView) {
 			curHdr = w.forge(cur)
 			hd.ValidatorSet = curHdr.vs
 		}
+	case 15:
+		// ... but its NextValidatorSet list was altered in transit (hashes, hence the block hash, untouched)
+		nextHdr = w.forge(next)
+		hd.NextValidatorSet = nextHdr.vs
+		rn.stats["replay_unchanged_set_forged_next_list"]++
 	case 13:
 		// the header's own validator set keeps Validators and both hashes (hence the genuine block hash) but carries a
 		// substituted PubKeys slice, and the commit proof is signed by exactly those substituted keys: a node that builds
@@ -1469,7 +1479,7 @@ func (rn *runner) step() {
 			// precommit of one validator for the next round so that the next-round view is not empty.
 			// Only reachable with -template 12.
 			rn.stats["script_replay_two_rounds_ahead"]++
-			rn.script = []string{"propose", "precommit-one-next", "replay-mixed-round", "gread", "replay-ahead2", "gread"}
+			rn.script = []string{"propose", "precommit-one-next", "replay-mixed-round", "gread", "replay-ahead2", "gread", "replay-same-set-forged", "gread", "propose", "precommit-all"}
 		case y == 11 && rn.crashes:
 			// a next-round prevote message that crosses the round-skip threshold is cut short after its FIRST store write (the
 			// round store has the votes, the stored position is still the old round), the mirror restarts and the message is
@@ -2127,6 +2137,9 @@ func (rn *runner) scripted(op string, v, c *tmconsensus.VersionedRoundView) bool
 		rn.replay(v, c)
 	case "replay-mixed-round":
 		rn.forceReplay = 14
+		rn.replay(v, c)
+	case "replay-same-set-forged":
+		rn.forceReplay = 15
 		rn.replay(v, c)
 	case "replay-ahead2":
 		rn.forceReplay = 3
